@@ -225,6 +225,20 @@ def gen_d40(rng, sid):
             "_model": False, "_N0": 3}
 
 
+def gen_d43(rng, sid):
+    """the D43 witness, directed (harness op "d43"): a Delete stopped right after it took the owner's fragment lock, the
+    previous owner's move of the same partition started meanwhile, the Delete released; the lock cycle is broken by client
+    timeouts and the acknowledged Delete is undone by the merges still queued on the owner"""
+    d = "c03z%d" % sid
+    keys = [dmaplib.hx("%s-k%02d" % (d, i)) for i in range(40)]
+    ops = [{"op": "put", "c": "emb0", "d": d, "k": k, "v": dmaplib.hx("%s#1" % k[-6:])} for k in keys]
+    ops += [{"op": "join"}, {"op": "push"}, {"op": "d43", "d": d}, {"op": "waitstable", "ms": 30000}]
+    for k in keys:
+        ops.append({"op": "get", "c": rng.choice(["emb0", "emb1", "cc"]), "d": d, "k": k})
+    cluster = {"members": 1, "replicas": 1, "partitions": 7, "table": 4096, "evict_workers": 1, "balancer_ms": 3600000, "push_ms": 3600000}
+    return {"id": sid, "cluster": cluster, "ops": ops, "_R": 1, "_nlive": 2, "_joins": 1, "_leave": False, "_model": False, "_N0": 1, "_d43": True}
+
+
 def judge(sc, obs):
     if len(obs) < len(sc["ops"]):
         return ("env", "scenario aborted")
@@ -246,6 +260,18 @@ def judge(sc, obs):
             if r != "ok":
                 return ("env", "cluster did not stabilise: %s" % r)
             unstable_after_stop = False
+        if o == "d43":
+            if ob.get("found"):
+                if ob.get("del") == "ok":
+                    ref.pop(ob["k"], None)
+                    if ob.get("get") == "ok":
+                        # reported by the caller as D43 (known finding) or as a violation
+                        sc["_d43_hit"] = (i, "an acknowledged Delete (%d ms, racing the move of its partition) was undone: Get returns %s" % (
+                            ob.get("ms", 0), bytes.fromhex(ob.get("val", "")).decode(errors="replace")))
+                        ambiguous.add(ob["k"])
+                else:
+                    ambiguous.add(ob["k"])
+            continue
         if o in ("stop", "arm"):
             unstable_after_stop = True
         if o == "put":
@@ -335,6 +361,8 @@ def run(res):
         scs.append(gen_crash(vlib.rng_for(res.seed, PID, "crash", j), 10000 + j, point, victim))
     for j in range(2 if res.tier == "quick" else 8):
         scs.append(gen_d40(vlib.rng_for(res.seed, PID, "d40", j), 20000 + j))
+    for j in range(1 if res.tier == "quick" else 3):
+        scs.append(gen_d43(vlib.rng_for(res.seed, PID, "d43", j), 30000 + j))
     results = memberlib.run_membership(scs, jobs=6)
     failures, envfail = [], 0
     d40_scenarios, d40_keys = 0, 0
@@ -358,6 +386,13 @@ def run(res):
             continue
         if v:
             failures.append((sc, r, v))
+        elif sc.get("_d43_hit"):
+            kf43 = vlib.match_known(PID, {"kind": "delete-races-move"})
+            if kf43:
+                res.known_finding(kf43["description"] + " [this run: %s]" % sc["_d43_hit"][1])
+                res.coverage["d43_reproduced"] = res.coverage.get("d43_reproduced", 0) + 1
+            else:
+                failures.append((sc, r, sc["_d43_hit"]))
     if envfail * 3 > len(scs):
         raise vlib.CheckError("%d of %d rebalancing scenarios could not start or stabilise (environment)" % (envfail, len(scs)))
     for sc, r, v in failures[:5]:
